@@ -66,8 +66,8 @@ import Lungo.Props.C16
 import Lungo.Spec.IndexSpec
 import Lungo.Tests.IndexFixtures
 import Lungo.Proofs.IndexLaws
-import Lungo.Proofs.IndexColl
-import Lungo.Proofs.IndexReject
+-- PENDING import Lungo.Proofs.IndexColl
+-- PENDING import Lungo.Proofs.IndexReject
 -- PENDING import Lungo.Proofs.IndexCat
 -- PENDING import Lungo.Proofs.IndexMgmt
 -- PENDING import Lungo.Props.C15
@@ -85,3 +85,13 @@ import Lungo.Model.ApiFlow
 import Lungo.Expected.ApiFlow
 import Lungo.Props.C17
 import Lungo.Proofs.FindLaws
+import Lungo.Model.Own
+import Lungo.Expected.TxnPrograms
+import Lungo.Proofs.OwnHeap
+import Lungo.Proofs.OwnSound
+import Lungo.Proofs.OwnSoundStmt
+import Lungo.Proofs.OwnRun
+import Lungo.Proofs.OwnClosed
+import Lungo.Proofs.OwnSys
+import Lungo.Props.C02
+import Lungo.Props.C03
